@@ -328,6 +328,11 @@ fn fam_lzma(ctx: &CaseCtx, cov: &mut Cov) -> CaseOut {
                 );
             } else if !reached && small_limit {
                 cov.name("stopped_earlier_by_a_small_memory_limit", 1);
+            } else if !reached && o.syms as usize == bc.bad_at {
+                // rejected while decoding the bad symbol, before the decoder announced it to the
+                // hook (a decoder may validate a repeat distance before anything else): that is a
+                // rejection at that point; whether the valid prefix decodes is C01's business
+                cov.name("rejected_before_the_symbol_was_announced", 1);
             } else if !reached {
                 out.harness_error(format!(
                     "decoder failed before reaching the bad symbol ({} of {} symbols): {}",
@@ -555,6 +560,14 @@ fn fam_raw_reuse(ctx: &CaseCtx, cov: &mut Cov) -> CaseOut {
     }
     let d0 = n.min(dict) - rng.below(3) as u32;
     p1.push(Sym::Match { dist: d0, len: 2 + rng.below(6) as u32 });
+    // half of the cases: the first stream goes on with a few literals (the automaton leaves the
+    // "after a copy" states), and the second stream begins with up to three plain literals before
+    // the symbol that reuses an inherited distance - larger than everything this window holds
+    let k_lits = if rng.chance(1, 2) { rng.range(1, 4) as usize } else { 0 };
+    for _ in 0..k_lits {
+        p1.push(Sym::Lit(rng.byte()));
+    }
+    let j_lits = if k_lits > 0 { rng.below(4) as usize } else { 0 };
     let mut it1 = Interp::new();
     for s in &p1 {
         it1.step(s);
@@ -568,11 +581,13 @@ fn fam_raw_reuse(ctx: &CaseCtx, cov: &mut Cov) -> CaseOut {
     };
     // second stream, encoded as a continuation of the first one's model state but
     // against an EMPTY history: its first symbol needs a byte at distance rep0
-    let kind = rng.usize_below(3);
+    let kind = if j_lits > 0 || k_lits > 0 { 1 + rng.usize_below(2) } else { rng.usize_below(3) };
     let first = match kind {
         0 => Sym::Lit(rng.byte()),
         1 => Sym::ShortRep,
-        _ => Sym::Rep { idx: rng.below(4) as u8, len: pick_len(&mut rng, false).min(out1.len() as u32).max(2) },
+        // with bytes in the window only rep0 (the distance of the first stream's last copy) is
+        // certain to reach beyond them
+        _ => Sym::Rep { idx: if j_lits > 0 { 0 } else { rng.below(4) as u8 }, len: pick_len(&mut rng, false).min(out1.len() as u32).max(2) },
     };
     let mut model = Model::new(props);
     let mut h1 = Vec::new();
@@ -586,6 +601,12 @@ fn fam_raw_reuse(ctx: &CaseCtx, cov: &mut Cov) -> CaseOut {
     let mut e2 = Encoder::new(&mut model, &mut h2);
     e2.allow_bad_ref = true;
     e2.fabricate = Some(0);
+    let mut valid2: Vec<u8> = Vec::new();
+    for _ in 0..j_lits {
+        let b = rng.byte();
+        valid2.push(b);
+        let _ = e2.push(&Sym::Lit(b));
+    }
     let _ = e2.push(&first);
     // the size in effect cannot be changed without reset: make the second stream
     // exactly as long as the first, so that a decoder lacking the guard reaches a
@@ -616,13 +637,14 @@ fn fam_raw_reuse(ctx: &CaseCtx, cov: &mut Cov) -> CaseOut {
     let c2 = sut::raw_lzma_decompress(&mut dec, &pay2, ReaderKind::Slice, &sink2, &obs);
     out.evals += 1;
     cov.inc("raw_reuse_first_symbol", kind as u32);
+    cov.name(&format!("raw_reuse.{}_plain_literals_before_the_inherited_distance", j_lits), 1);
     cov.inc("window.circular(raw, second decode without reset)", 0);
     out.nontrivial.push(case_hash(&[&pay1, &pay2]));
     let got = sink2.bytes();
     ctx.say(format!("raw reuse without reset: first stream {} bytes out ending in {}, second starts with {} -> {} ({} bytes)", out1.len(), p1.last().unwrap().short(), first.short(), c2.verdict.short(), got.len()));
     match &c2.verdict {
         Verdict::Err(_) => {
-            if !got.is_empty() {
+            if !(got.len() <= valid2.len() && got[..] == valid2[..got.len()]) {
                 out.violate(
                     "C09/raw-reuse/fabricated-bytes-before-error",
                     format!("second decode on a non-reset raw decoder delivered {} bytes although its first symbol ({}) refers to bytes never produced in this window", got.len(), first.short()),
@@ -633,8 +655,8 @@ fn fam_raw_reuse(ctx: &CaseCtx, cov: &mut Cov) -> CaseOut {
         other => out.violate(
             format!("C09/raw-reuse/{}", if other.is_ok() { "accepted".to_string() } else { verdict_sig(other) }),
             format!(
-                "raw LzmaDecoder (dict {}) decoded a second stream without reset; its first symbol {} needs the byte at distance {} of an empty window: {} with {} bytes delivered",
-                dict, first.short(), d0, other.short(), got.len()
+                "raw LzmaDecoder (dict {}) decoded a second stream without reset; after {} plain literals its symbol {} needs the byte at distance {} of a window holding {} bytes: {} with {} bytes delivered",
+                dict, j_lits, first.short(), d0, j_lits, other.short(), got.len()
             ),
             J::obj().set("first_payload_hex", J::s(crate::util::hex_trunc(&pay1, 1024))).set("second_payload_hex", J::s(crate::util::hex_trunc(&pay2, 1024))),
         ),
